@@ -83,4 +83,98 @@ char *strchr(const char *s, int c)
 }
 #endif /* VERIF_EXACT_LIBC */
 
+
+/* =====================================================================================================
+ * tier P stubs (unit defines VERIF_EXPAND_PSTUBS, VERIF_OWN_STRLEN, VERIF_OWN_STRCMP before vprelude.h;
+ * contracts/expand.h, which declares the ghosts, is included before this file).
+ * ===================================================================================================== */
+#ifdef VERIF_EXPAND_PSTUBS
+/* exact length of a registered string (see the string registry in contracts/expand.h), else "unknown".
+ * ASSUMES: a registered ghost length is the exact length of the string (no NUL before it); the stubs and
+ * contracts that register a string construct it with its terminator at that position. */
+#define VG_REGISTERED(p) ((vg_so1 && __CPROVER_same_object((p), vg_so1)) || (vg_so2 && __CPROVER_same_object((p), vg_so2)) || \
+                          (vg_bn0 && __CPROVER_same_object((p), vg_bn0)) || (vg_bn1 && __CPROVER_same_object((p), vg_bn1)))
+#define VG_REGLEN(p)     ((vg_so1 && __CPROVER_same_object((p), vg_so1)) ? vg_sl1 : \
+                          (vg_so2 && __CPROVER_same_object((p), vg_so2)) ? vg_sl2 : \
+                          (vg_bn0 && __CPROVER_same_object((p), vg_bn0)) ? vg_bl0 : vg_bl1)
+size_t strlen(const char *s)
+{
+    __CPROVER_assert(s != NULL, "strlen: argument not NULL");
+    __CPROVER_assert(__CPROVER_r_ok(s, 1), "strlen: argument readable");
+    if (VG_REGISTERED(s) && __CPROVER_POINTER_OFFSET(s) <= VG_REGLEN(s))
+        return VG_REGLEN(s) - __CPROVER_POINTER_OFFSET(s);
+    size_t r = nondet_size_t();                      /* otherwise: SOME position of a NUL, as in env.h */
+    __CPROVER_assume(r < VREMAIN(s));
+    __CPROVER_assume(s[r] == 0);
+    return r;
+}
+/* comparison family: any int.  strncasecmp additionally carries one consequence of "the first n
+ * characters are equal": when a has no NUL among its first n characters (registered exact length >= n),
+ * then b has none either; instantiated at the ghost position vg_cq (set by the caller's annotation). */
+size_t vg_cq;
+int strcmp(const char *a, const char *b)
+{
+    __CPROVER_assert(a != NULL && b != NULL, "strcmp: arguments not NULL");
+    __CPROVER_assert(__CPROVER_r_ok(a, 1) && __CPROVER_r_ok(b, 1), "strcmp: arguments readable");
+    return nondet_int();
+}
+int strncmp(const char *a, const char *b, size_t n)
+{
+    __CPROVER_assert(n == 0 || (a != NULL && b != NULL), "strncmp: arguments not NULL");
+    __CPROVER_assert(n == 0 || (__CPROVER_r_ok(a, 1) && __CPROVER_r_ok(b, 1)), "strncmp: arguments readable");
+    return nondet_int();
+}
+int strcasecmp(const char *a, const char *b)
+{
+    __CPROVER_assert(a != NULL && b != NULL, "strcasecmp: arguments not NULL");
+    __CPROVER_assert(__CPROVER_r_ok(a, 1) && __CPROVER_r_ok(b, 1), "strcasecmp: arguments readable");
+    return nondet_int();
+}
+int strncasecmp(const char *a, const char *b, size_t n)
+{
+    __CPROVER_assert(n == 0 || (a != NULL && b != NULL), "strncasecmp: arguments not NULL");
+    __CPROVER_assert(n == 0 || (__CPROVER_r_ok(a, 1) && __CPROVER_r_ok(b, 1)), "strncasecmp: arguments readable");
+    int r = nondet_int();
+    if (r == 0 && vg_cq < n && VG_REGISTERED(a) && __CPROVER_POINTER_OFFSET(a) == 0 && VG_REGLEN(a) >= n
+        && vg_cq < VREMAIN(b))
+        __CPROVER_assume(b[vg_cq] != 0);
+    return r;
+}
+/* environment: NULL, or a C string owned by the environment, of exactly vg_sl1 characters (registered),
+ * whose byte at the ghost index vg_q is not the ghost byte vg_fb.
+ * ASSUMES: an environment value is shorter than VCAP bytes. */
+char *getenv(const char *name)
+{
+    __CPROVER_assert(name != NULL && __CPROVER_r_ok(name, 1), "getenv: name readable");
+    if (nondet_bool()) return (char *) 0;
+    size_t n = nondet_size_t();
+    __CPROVER_assume(n <= VCAP);
+    char *r = malloc(n + 1);
+    r[n] = 0;
+    __CPROVER_assume(n == 0 || r[0] != 0);
+    __CPROVER_assume(!(vg_q < n) || r[vg_q] != vg_fb);
+    vg_so1 = r; vg_sl1 = n;
+    return r;
+}
+/* strcpy: the text up to and including the FIRST NUL is copied; the destination must hold it.
+ * r is the first NUL: in particular the byte at the ghost hint position vg_l1exit is not a NUL when the
+ * hint lies below r (instantiation of "no NUL before r" at one position).  Copied text: byte vg_k. */
+char *strcpy(char *d, const char *s)
+{
+    __CPROVER_assert(d != NULL && s != NULL, "strcpy: arguments not NULL");
+    __CPROVER_assert(__CPROVER_r_ok(s, 1), "strcpy: source readable");
+    size_t r = nondet_size_t();
+    __CPROVER_assume(r < VREMAIN(s));
+    __CPROVER_assume(s[r] == 0);
+    __CPROVER_assume(!(vg_l1exit < r) || s[vg_l1exit] != 0);
+    __CPROVER_assert(r < VREMAIN(d), "strcpy: destination holds the source string and its terminator");
+    char c = (vg_k < r) ? s[vg_k] : 0;
+    __CPROVER_havoc_slice(d, r + 1);
+    d[r] = 0;
+    if (vg_k < r) d[vg_k] = c;
+    vg_rlen = r;
+    return d;
+}
+#endif /* VERIF_EXPAND_PSTUBS */
+
 #endif
